@@ -30,6 +30,7 @@ type cnItem struct {
 	Name string
 	Tags []string
 	Sub  *cnSub
+	Gone bool `graphql:"-"` // resolves to a null list element
 }
 type cnSub struct {
 	V int64
@@ -161,6 +162,9 @@ func cnSchema(db *cnDB, rec *cnRec) *graphql.Schema {
 		out := make([]*cnItem, len(db.items))
 		for i := range db.items {
 			it := db.items[i]
+			if it.Gone {
+				continue // a nil pointer: a null element in place
+			}
 			it.Tags = append([]string{}, it.Tags...)
 			if it.Sub != nil {
 				s := *it.Sub
@@ -313,7 +317,7 @@ func cnGenActions(r *Rand, n int) []cnAction {
 
 func cnApplyChange(db *cnDB, r *Rand, arg int64) {
 	db.change(func() {
-		switch arg % 7 {
+		switch arg % 8 {
 		case 0:
 			db.n = arg
 		case 1: // item appears
@@ -357,6 +361,11 @@ func cnApplyChange(db *cnDB, r *Rand, arg int64) {
 			db.petVal = arg
 		case 6:
 			db.petVal = arg + 1
+		case 7: // an element becomes null in place / comes back
+			if len(db.items) > 0 {
+				i := int(arg/8) % len(db.items)
+				db.items[i].Gone = !db.items[i].Gone
+			}
 		}
 	})
 }
